@@ -287,6 +287,31 @@ func posMonitor(args []string) int {
 				rep.Violate("incremental-differs-from-recomputed", vi, fmt.Sprintf("%s: incremental %s, sum over board %s", k, cur.fields[k], v))
 			}
 		}
+		// every successor (one ply, all legal moves) of corpus positions and of a share of the others:
+		// the special moves a position offers are all tried, not only the one the game happened to play
+		if len(g.Moves) == 0 || rng.Chance(10) {
+			q := *p
+			lm := w.legalMoves(&q)
+			for _, m := range lm {
+				q2 := *p
+				q2.DoMove(m)
+				fr, err := position.NewPositionFen(q2.StringFen())
+				if err != nil || fr == nil {
+					vi := in()
+					vi["move"] = m.StringUci()
+					rep.Violate("own-fen-rejected", vi, "after "+m.StringUci()+": "+q2.StringFen())
+					continue
+				}
+				a, b := snap(&q2, nil, false), snap(fr, nil, false)
+				if d := a.diff(b); len(d) > 0 {
+					vi := in()
+					vi["move"] = m.StringUci()
+					vi["fields"] = diffKeys(d)
+					rep.Violate("incremental-differs-from-fresh", vi, "after "+m.StringUci()+": "+fmt.Sprint(d))
+				}
+				rep.Stats["successors_checked"]++
+			}
+		}
 		// key is a function of (placement, side, rights, ep)
 		core := fmt.Sprintf("%s|%s|%s|%s", cur.fields["board"], cur.fields["nextPlayer"], cur.fields["castling"], cur.fields["ep"])
 		key := uint64(p.ZobristKey())
